@@ -151,6 +151,20 @@ structure GoLoop.IsDeleteBwd (L : GoLoop) : Prop where
   step : L.step = -1
   skip : ∀ i n s e lim cnt, L.skip i n s e lim cnt = decide (i < s ∨ e ≤ i ∨ lim ≤ cnt)
 
+/-- delete-duplicates.go forward: every index, elements outside `[start, end)` kept without a look -/
+structure GoLoop.IsGuardFwd (L : GoLoop) : Prop where
+  init : ∀ n s e, L.init n s e = 0
+  cond : ∀ i n s e, L.cond i n s e = decide (i < n)
+  step : L.step = 1
+  skip : ∀ i n s e lim cnt, L.skip i n s e lim cnt = decide (i < s ∨ e ≤ i)
+
+/-- delete-duplicates.go backward -/
+structure GoLoop.IsGuardBwd (L : GoLoop) : Prop where
+  init : ∀ n s e, L.init n s e = n - 1
+  cond : ∀ i n s e, L.cond i n s e = decide (0 ≤ i)
+  step : L.step = -1
+  skip : ∀ i n s e lim cnt, L.skip i n s e lim cnt = decide (i < s ∨ e ≤ i)
+
 /-- count.go forward: `for i := start; i < end; i++` -/
 structure GoLoop.IsRangeFwd (L : GoLoop) : Prop where
   init : ∀ n s e, L.init n s e = s
